@@ -33,7 +33,9 @@ class Clock:
 
     def time(self):
         ts = ghost("clock")
-        return ts.pop(0) if len(ts) > 1 else ts[0]
+        t = ts.pop(0) if len(ts) > 1 else ts[0]
+        ghost("T").append(("time", t))
+        return t
 
 
 class Ev:
@@ -55,6 +57,17 @@ class Ev:
     async def wait(self):
         ghost("T").append("ready_wait")
         self.flag = True
+
+
+class Lock:
+    """asyncio.Lock by contract: mutual exclusion (trusted); acquisition and release are events."""
+
+    async def __aenter__(self):
+        ghost("T").append("lock")
+
+    async def __aexit__(self, exc_type, exc, tb):
+        ghost("T").append("unlock")
+        return False
 
 
 class Handle:
@@ -98,6 +111,7 @@ def flow(pausing):
         _loop=Obj(Clock),
         _ready=Obj(Ev, flag=Bool()),
         _received_busy_frames=Int(0, 1000),
+        _send_lock=Obj(Lock),
         _timer_task=Choice(None, Obj(Handle, cancelled=False)),
         _wait_start_time=T if pausing else None,
         _wait_time_ms=Int(0, 65535),
@@ -212,7 +226,8 @@ CEMI = Obj(CEMIFrame, code=Const(CEMIMessageCode.L_DATA_REQ), info=None, data=No
 def an_indication_waits_for_the_spacing_and_the_block_and_is_confirmed_once(rt, cemi, now, later):
     """send_cemi at clock reading `now`: if less than 20 ms passed since the previous indication the rest is
     slept first; then the ready flag is awaited; then - with no await in between - exactly one
-    RoutingIndication with the L_Data.ind octets is sent and its time recorded; afterwards exactly one local
+    RoutingIndication - all of this under the send lock, so that concurrent senders cannot wait for the same
+    instant and leave back to back - exactly one RoutingIndication with the L_Data.ind octets is sent and its time recorded; afterwards exactly one local
     L_Data.con is handed to the receive callback."""
     fc = rt._flow_control
     assume(fc._last_sent_routing_indication_time <= now <= later)
@@ -221,14 +236,18 @@ def an_indication_waits_for_the_spacing_and_the_block_and_is_confirmed_once(rt, 
     last = fc._last_sent_routing_indication_time
     run(rt.send_cemi(cemi))
     tr = ghost("T")
+    assert tr[0] == "lock"  # one sender at a time: the spacing is measured and kept under the send lock
+    assert tr[1] == ("time", now)
     if now - last < 0.02:
-        assert tr[0] == ("sleep", 0.02 - (now - last))
-        rest = tr[1:]
+        assert tr[2] == ("sleep", 0.02 - (now - last))
+        rest = tr[3:]
     else:
-        rest = tr
-    assert len(rest) == 3 and rest[0] == "ready_wait"
+        rest = tr[2:]
+    assert len(rest) == 5 and rest[0] == "ready_wait"
     assert rest[1][0] == "send" and isinstance(rest[1][1].body, RoutingIndication) and rest[1][1].body.raw_cemi == bytes([CEMIMessageCode.L_DATA_IND.value]) + RAW[1:]
-    assert rest[2] == ("confirmation", bytes([CEMIMessageCode.L_DATA_CON.value]) + RAW[1:])
+    assert rest[2] == ("time", later)  # the time recorded is read after the transmission, not before the wait for the block
+    assert rest[3] == "unlock"
+    assert rest[4] == ("confirmation", bytes([CEMIMessageCode.L_DATA_CON.value]) + RAW[1:])
     assert fc._last_sent_routing_indication_time == later
 
 
@@ -249,6 +268,6 @@ def every_received_busy_frame_reaches_flow_control(rt, kind, rb, raw):
 
 ASSUMPTIONS = [
     "time is not modelled: asyncio.sleep(d) takes at least d; loop.time() readings are reals and do not decrease; 'no indication until the wait time has elapsed' is derived: the ready flag is cleared by every busy frame, set only by the timer after its first sleep, and awaited by every send",
-    "asyncio.Event / create_task / cancellation behave as their contract classes say (a cancelled timer does not continue); one sender at a time (TelegramQueue sends one telegram at a time, C33), so two sends are never inside throttle() together",
+    "asyncio.Event / Lock / create_task / cancellation behave as their contract classes say (a cancelled timer does not continue; the lock is mutually exclusive)",
     "IEEE rounding of the few clock subtractions and of wait_time/1000 is not modelled (real arithmetic)",
 ]
